@@ -359,7 +359,7 @@ type Config struct {
 	Wrap      func(capacity uint, l wal.Log) wal.Log
 }
 
-type Fix struct{ Drop, RO, Guard bool }
+type Fix struct{ Drop, RO, Guard, TSync bool }
 
 type Runner struct {
 	cfg     Config
@@ -388,10 +388,17 @@ type Runner struct {
 func (r *Runner) fs() bool { return r.cfg.Mode == 0 || r.cfg.Mode == 2 }
 
 var reportedGlobal = map[string]int{}
+var obsSampled = map[string]bool{}
 
 func (r *Runner) report(sig, what string, detail map[string]interface{}) {
 	if r.observe {
 		vw.Stat("observation."+sig, 1)
+		clause := strings.SplitN(strings.TrimPrefix(sig, "crash-"), "-", 2)[0]
+		if !obsSampled[clause] {
+			obsSampled[clause] = true
+			vw.Sample(fmt.Sprintf("OBSERVATION (power loss with an un-synced ftruncate pending; outside C06's crash quantifier) %s case=%s: %s; state=%v; after ops: %s",
+				sig, r.caseID, what, detail["files"], r.desc.String()))
+		}
 		return
 	}
 	if strings.HasPrefix(sig, "live-") || strings.HasPrefix(sig, "cache-") {
@@ -478,9 +485,27 @@ func ProbeFixes(base string) Fix {
 		}
 		l.Close()
 	}
+	// F25 (proposed): does logFile.Truncate fsync after its ftruncate? (decided from the hook trace of a Truncate
+	// that cuts inside a file)
+	d4 := filepath.Join(base, "probe4")
+	materialise(d4, snapshot{})
+	if l, err := wal.OpenFSLog(d4); err == nil {
+		l.Append(wal.Record{ID: 1, Data: []byte("x")}, wal.Record{ID: 2, Data: []byte("y")}, wal.Record{ID: 3, Data: []byte("z")})
+		c := &collector{dir: d4}
+		active = c
+		l.Truncate(1)
+		active = nil
+		for i, m := range c.muts {
+			if m.Kind == MTruncate && i+1 < len(c.muts) && c.muts[i+1].Kind == MSync {
+				fx.TSync = true
+			}
+		}
+		l.Close()
+	}
 	os.RemoveAll(d1)
 	os.RemoveAll(d2)
 	os.RemoveAll(d3)
+	os.RemoveAll(d4)
 	return fx
 }
 
@@ -547,7 +572,7 @@ func (r *Runner) Init() bool {
 	}
 	if r.wire() {
 		r.tr.Case(r.caseID)
-		r.tr.Op(OpInit, int64(r.cfg.Mode), r.cfg.MaxSz, int64(r.cfg.Cap), b2i(r.fix.Drop), b2i(r.fix.RO), b2i(r.fix.Guard))
+		r.tr.Op(OpInit, int64(r.cfg.Mode), r.cfg.MaxSz, int64(r.cfg.Cap), b2i(r.fix.Drop), b2i(r.fix.RO), b2i(r.fix.Guard), b2i(r.fix.TSync))
 		var l vw.L
 		l.Add(0)
 		addMuts(&l, c.muts)
